@@ -417,6 +417,13 @@ func orchestrate(prop, tier string, seed uint64) int {
 	tmp := os.Getenv("TMPDIR")
 	if tmp == "" {
 		tmp = "/tmp"
+		// sqlite fsyncs on every statement; on a memory-backed filesystem the same workload runs about five times faster
+		if st, err := os.Stat("/dev/shm"); err == nil && st.IsDir() {
+			if d, err := os.MkdirTemp("/dev/shm", "verif-probe-"); err == nil {
+				_ = os.Remove(d)
+				tmp = "/dev/shm"
+			}
+		}
 	}
 	scratch, err := os.MkdirTemp(tmp, "verif-"+prop+"-")
 	if err != nil {
